@@ -301,6 +301,26 @@ func init() {
 	stdModels["io.ReadFull"] = func(fr *Frame, fn *ssa.Function, args []Value, pc *Term, st *State, pos token.Pos, resT types.Type) callResult {
 		used(fr, "io.ReadFull (err == nil <=> n == len(buf))")
 		fr.ex.readerDiscipline(args[0], pos, pc)
+		// a *bytes.Buffer as the reader (lemma functions): exact semantics
+		if iv, ok := args[0].(IfaceV); ok && iv.Tag.lit && iv.Tag.val.IsInt64() {
+			if t, known := fr.ex.typeByID[int(iv.Tag.val.Int64())]; known && typeKey(t) == "*bytes.Buffer" {
+				ex := fr.ex
+				bp := ex.fromIface(iv, t)
+				b := ex.loadBuf(st, bp, pc, pos)
+				p := args[1].(SliceV)
+				full := BVSle(p.Len, b.Len)
+				n := Ite(full, p.Len, b.Len)
+				src := SliceV{St: StDyn, ID: b.ID, Off: BV(0, 64), Len: b.Len, Cap: b.Len, Elem: types.Typ[types.Uint8]}
+				sa := ex.sliceArr(st, src, 0, SBV(8))
+				da := ex.sliceArr(st, p, 0, SBV(8))
+				// case split on "enough bytes buffered" at the array level, so that the
+				// copied ranges have syntactic lengths
+				ex.setSliceArr(st, p, 0, Ite(full, CopyArr(da, p.Off, sa, BV(0, 64), p.Len), CopyArr(da, p.Off, sa, BV(0, 64), b.Len)))
+				ex.setSliceArr(st, src, 0, Ite(full, CopyArr(sa, BV(0, 64), sa, p.Len, BVSub(b.Len, p.Len)), sa))
+				ex.store(st, bp, BufV{b.ID, BVSub(b.Len, n)}, pc, pos)
+				return callResult{val: TupleV{[]Value{IntV{n}, ex.errValue(full, "readfull")}}, st: st}
+			}
+		}
 		return fr.modelRead(args[1], pc, st, true)
 	}
 	stdModels["bytes.Equal"] = func(fr *Frame, fn *ssa.Function, args []Value, pc *Term, st *State, pos token.Pos, resT types.Type) callResult {
